@@ -323,6 +323,12 @@ def encoder_operand_sites(project):
                         if t is not None:
                             gated |= {y.id for y in _a.walk(t) if isinstance(y, _a.Name)} | {y.attr for y in _a.walk(t) if isinstance(y, _a.Attribute) and _n(y.value) == "self"}
                 for x in _a.walk(f):
+                    # bits of a raw operand scattered into fields: (self.offset >> 6) & 1 ... with no range test on that operand in the encoder
+                    if f.name in ("encode", "set_user_patterns") and isinstance(x, _a.BinOp) and isinstance(x.op, _a.BitAnd) and isinstance(_tc(x.right), int) \
+                            and isinstance(x.left, _a.BinOp) and isinstance(x.left.op, _a.RShift) and isinstance(x.left.left, _a.Attribute) and _n(x.left.left.value) == "self" \
+                            and x.left.left.attr in ops and x.left.left.attr not in gated and not isinstance(getattr(x, "_parent", None), _a.Compare):
+                        out.append((rel, c.name, f.name, "masked", x, _n(x) + " (bits of operand %s taken without a range test in this encoder)" % x.left.left.attr))
+                for x in _a.walk(f):
                     if isinstance(x, _a.BinOp) and isinstance(x.op, (_a.BitAnd, _a.Mod)):
                         if isinstance(getattr(x, "_parent", None), _a.Compare):
                             continue   # `assert self.imm % 4 == 0`, `if self.imm & 0x800`: a test, not a truncation
